@@ -37,3 +37,210 @@ Theorem c13_every_setter_guarded : forall x, In x setters ->
   exists f, family x = Some f /\ guard_first f (s_body x) = true /\ In (SSetFlag f) (s_body x).
 Proof. exact setter_ok_spec. Qed.
 Print Assumptions c13_every_setter_guarded.
+
+(* after a successful dispatch every flag check_all_set asserts is set - for EVERY option dictionary and row *)
+Theorem c13_all_set : forall opts r s, dispatch opts r = DOk s -> check_all_set s = true.
+Proof. exact dispatch_all_set. Qed.
+Print Assumptions c13_all_set.
+
+Theorem c13_all_set_iff : forall s, check_all_set s = true <-> (forall f, In f check_flags -> In f (flags s)).
+Proof. exact check_all_set_iff. Qed.
+Print Assumptions c13_all_set_iff.
+
+(* a missing required key is rejected (nothing of the partially built state is returned: DRej carries no state) *)
+Theorem c13_missing_key_rejected : forall opts r k, In k required_keys -> lookup k opts = None ->
+  dispatch opts r = DRej AssertRejected.
+Proof. exact missing_key_rejected. Qed.
+Print Assumptions c13_missing_key_rejected.
+
+(* every dispatched option family is a required key (so "missing" is always caught by the theorem above) *)
+Theorem c13_families_required : forall key brs, In (DChain key brs) dispatch_steps -> In key required_keys.
+Proof.
+  assert (H : forallb (fun st => match st with DChain k _ => str_mem k required_keys | _ => true end) dispatch_steps = true)
+    by (vm_compute; reflexivity).
+  intros key brs Hin. rewrite forallb_forall in H. specialize (H _ Hin). apply str_mem_In; exact H.
+Qed.
+Print Assumptions c13_families_required.
+
+(* any value that is not one of the literals of its family's chain is rejected, for every dictionary and row *)
+Theorem c13_unknown_value_rejected : forall opts r key brs v,
+  In (DChain key brs) dispatch_steps -> lookup key opts = Some v ->
+  (forall lit, In lit (chain_lits key) -> optv_is_str v lit = false) ->
+  exists k, dispatch opts r = DRej k.
+Proof. exact unknown_value_rejected. Qed.
+Print Assumptions c13_unknown_value_rejected.
+
+(* every literal of every chain is accepted on a witness configuration (global base without a row, or country
+   base with a synthetic row), except the branches that end in sys.exit() (protein/fat = required) *)
+Theorem c13_values_accepted : forall key brs v acts, In (DChain key brs) dispatch_steps -> In (v, acts) brs ->
+  In DExit acts \/
+  exists cfg s, In cfg witness_configs /\ dispatch (set_assoc key (OStr v) (fst cfg)) (snd cfg) = DOk s.
+Proof. exact values_accepted. Qed.
+Print Assumptions c13_values_accepted.
+
+(* which values terminate the process instead of being accepted or rejected: exactly these *)
+Theorem c13_exit_values :
+  flat_map (fun st => match st with
+                      | DChain k brs => map (fun br => (k, fst br)) (filter (fun br => existsb is_exit (snd br)) brs)
+                      | _ => []
+                      end) dispatch_steps = [("protein", "required"); ("fat", "required")].
+Proof. vm_compute. reflexivity. Qed.
+Print Assumptions c13_exit_values.
+
+(* ------------------------------------------------------------------ documented literal tables *)
+(* transcribed from scenarios/README.md, the scenario_description texts and the comments of scenarios.py:
+   (family, value, every constant the option sets with its value).  NMONTHS stands for 120. *)
+Definition shutoff (feed biofuel pct : Q) : dict :=
+  [("DELAY.FEED_SHUTOFF_MONTHS", VNum feed); ("DELAY.BIOFUEL_SHUTOFF_MONTHS", VNum biofuel);
+   ("MINIMUM_PERCENT_FED_BEFORE_NONHUMAN_CONSUMPTION_ALLOWED", VNum pct)].
+Definition waste (sugar crops meat milk seafood retail : Q) : dict :=
+  [("WASTE_DISTRIBUTION", VDict); ("WASTE_DISTRIBUTION.SUGAR", VNum sugar); ("WASTE_DISTRIBUTION.CROPS", VNum crops);
+   ("WASTE_DISTRIBUTION.MEAT", VNum meat); ("WASTE_DISTRIBUTION.MILK", VNum milk);
+   ("WASTE_DISTRIBUTION.SEAFOOD", VNum seafood); ("WASTE_DISTRIBUTION.SEAWEED", VNum seafood); ("WASTE_RETAIL", VNum retail)].
+Definition intake (sw cs scp : Q) : dict :=
+  [("MAX_SEAWEED_AS_PERCENT_KCALS_HUMANS", VNum sw); ("MAX_CELLULOSIC_SUGAR_AS_PERCENT_KCALS_HUMANS", VNum cs);
+   ("MAX_METHANE_SCP_AS_PERCENT_KCALS_HUMANS", VNum scp);
+   ("MAX_SEAWEED_AS_PERCENT_KCALS_FEED", VNum 10); ("MAX_CELLULOSIC_SUGAR_AS_PERCENT_KCALS_FEED", VNum 10);
+   ("MAX_METHANE_SCP_AS_PERCENT_KCALS_FEED", VNum 43);
+   ("MAX_SEAWEED_AS_PERCENT_KCALS_BIOFUEL", VNum 10); ("MAX_CELLULOSIC_SUGAR_AS_PERCENT_KCALS_BIOFUEL", VNum 100);
+   ("MAX_METHANE_SCP_AS_PERCENT_KCALS_BIOFUEL", VNum 100)].
+Definition years (prefix : string) (vals : list Q) : dict :=
+  map (fun p => (prefix ++ fst p, VNum (snd p)))
+      (combine ["1"; "2"; "3"; "4"; "5"; "6"; "7"; "8"; "9"; "10"; "11"] vals).
+
+Definition documented : list (string * string * dict) :=
+  [ ("shutoff", "immediate", shutoff 0 0 100);
+    ("shutoff", "one_month_delayed_shutoff", shutoff 1 1 100);
+    ("shutoff", "short_delayed_shutoff", shutoff 2 1 100);
+    ("shutoff", "long_delayed_shutoff", shutoff 3 2 100);
+    ("shutoff", "continued", shutoff 120 120 100);
+    ("shutoff", "continued_after_10_percent_fed", shutoff 120 120 10);
+    ("shutoff", "long_delayed_shutoff_after_10_percent_fed", shutoff 12 6 10);
+    ("waste", "zero", waste 0 0 0 0 0 0);
+    ("waste", "tripled_prices_globally", waste (9#100) (496#100) (80#100) (212#100) (17#100) (608#100));
+    ("waste", "doubled_prices_globally", waste (9#100) (496#100) (80#100) (212#100) (17#100) (106#10));
+    ("waste", "baseline_globally", waste (9#100) (496#100) (80#100) (212#100) (17#100) (2498#100));
+    ("nutrition", "baseline", [("NUTRITION", VDict); ("NUTRITION.KCALS_DAILY", VNum 2100);
+                               ("NUTRITION.FAT_DAILY", VNum (617#10)); ("NUTRITION.PROTEIN_DAILY", VNum (595#10))]);
+    ("nutrition", "catastrophe", [("NUTRITION", VDict); ("NUTRITION.KCALS_DAILY", VNum 2100);
+                                  ("NUTRITION.FAT_DAILY", VNum 47); ("NUTRITION.PROTEIN_DAILY", VNum 51)]);
+    ("intake_constraints", "enabled", intake 10 40 50);
+    ("intake_constraints", "disabled_for_humans", intake 100 100 100);
+    ("stored_food", "zero", [("STORE_FOOD_BETWEEN_YEARS", VBool true); ("PERCENT_STORED_FOOD_TO_USE", VNum 0);
+                             ("ADD_STORED_FOOD", VBool false)]);
+    ("stored_food", "baseline", [("STORE_FOOD_BETWEEN_YEARS", VBool true); ("PERCENT_STORED_FOOD_TO_USE", VNum 100);
+                                 ("ADD_STORED_FOOD", VBool true)]);
+    ("ratio_stocks_untouched", "zero", [("STORE_FOOD_BETWEEN_YEARS", VBool true); ("RATIO_STOCKS_UNTOUCHED", VNum 0)]);
+    ("ratio_stocks_untouched", "no_stored_between_years",
+       [("STORE_FOOD_BETWEEN_YEARS", VBool false); ("RATIO_STOCKS_UNTOUCHED", VNum 0)]);
+    ("ratio_stocks_untouched", "baseline", [("STORE_FOOD_BETWEEN_YEARS", VBool true); ("RATIO_STOCKS_UNTOUCHED", VNum 1)]);
+    ("ratio_stocks_untouched", "baseline_no_stored_between_years",
+       [("STORE_FOOD_BETWEEN_YEARS", VBool false); ("RATIO_STOCKS_UNTOUCHED", VNum 1)]);
+    ("cull", "do_eat_culled", [("ADD_MEAT", VBool true); ("ADD_MILK", VBool true)]);
+    ("cull", "dont_eat_culled", [("ADD_MEAT", VBool false); ("ADD_MILK", VBool false)]);
+    ("meat_strategy", "reduce_breeding", [("BREEDING_STRATEGY", VStr "reduced")]);
+    ("meat_strategy", "baseline_breeding", [("BREEDING_STRATEGY", VStr "baseline")]);
+    ("meat_strategy", "feed_only_ruminants", [("BREEDING_STRATEGY", VStr "feed_only_ruminants")]);
+    ("protein", "not_required", [("INCLUDE_PROTEIN", VBool false)]);
+    ("fat", "not_required", [("INCLUDE_FAT", VBool false)]);
+    ("seasonality", "no_seasonality", [("SEASONALITY", VList (repeat (1#12) 12))]);
+    ("grasses", "baseline", years "RATIO_GRASSES_YEAR" (repeat 1 10));
+    ("grasses", "global_nuclear_winter",
+       years "RATIO_GRASSES_YEAR" [72#100; 24#100; 16#100; 13#100; 125#1000; 15#100; 17#100; 23#100; 32#100; 41#100]);
+    ("grasses", "all_crops_die_instantly", years "RATIO_GRASSES_YEAR" (repeat 0 10));
+    ("crop_disruption", "zero", ("ADD_OUTDOOR_GROWING", VBool true) :: years "RATIO_CROPS_YEAR" (repeat 1 10));
+    ("crop_disruption", "global_nuclear_winter",
+       ("ADD_OUTDOOR_GROWING", VBool true) ::
+       years "RATIO_CROPS_YEAR" [47#100; 18#100; 11#100; 12#100; 16#100; 24#100; 35#100; 50#100; 67#100; 83#100; 92#100]);
+    ("crop_disruption", "all_crops_die_instantly",
+       ("ADD_OUTDOOR_GROWING", VBool false) :: ("RATIO_OF_CROP_YIELDS_FROM_VERY_BEGINNING", VNum 0) ::
+       years "RATIO_CROPS_YEAR" (repeat 0 11));
+    ("scenario", "no_resilient_foods",
+       [("INDUSTRIAL_FOODS_SLOPE_MULTIPLIER", VNum 0); ("RATIO_INCREASED_CROP_AREA", VNum 1);
+        ("OG_USE_BETTER_ROTATION", VBool false); ("ADD_CELLULOSIC_SUGAR", VBool false); ("ADD_GREENHOUSES", VBool false);
+        ("ADD_METHANE_SCP", VBool false); ("ADD_SEAWEED", VBool false)]);
+    ("scenario", "seaweed",
+       [("INDUSTRIAL_FOODS_SLOPE_MULTIPLIER", VNum 0); ("RATIO_INCREASED_CROP_AREA", VNum 1);
+        ("OG_USE_BETTER_ROTATION", VBool false); ("ADD_CELLULOSIC_SUGAR", VBool false); ("ADD_GREENHOUSES", VBool false);
+        ("ADD_METHANE_SCP", VBool false); ("ADD_SEAWEED", VBool true); ("DELAY.SEAWEED_MONTHS", VNum 1)]);
+    ("scenario", "methane_scp",
+       [("RATIO_INCREASED_CROP_AREA", VNum 1); ("OG_USE_BETTER_ROTATION", VBool false);
+        ("ADD_CELLULOSIC_SUGAR", VBool false); ("ADD_GREENHOUSES", VBool false); ("ADD_SEAWEED", VBool false);
+        ("DELAY.INDUSTRIAL_FOODS_MONTHS", VNum 2); ("INDUSTRIAL_FOODS_SLOPE_MULTIPLIER", VNum 1); ("ADD_METHANE_SCP", VBool true)])
+  ].
+
+(* each documented option value is wired to one setter, and that setter writes exactly these constants *)
+Theorem c13_writes : forall e, In e documented -> entry_holds e = true.
+Proof.
+  assert (H : forallb entry_holds documented = true) by (vm_compute; reflexivity).
+  intros e He. rewrite forallb_forall in H. exact (H e He).
+Qed.
+Print Assumptions c13_writes.
+
+(* ------------------------------------------------------------------ head-count overrides *)
+(* option '<species>_head' -> constants key '<species>_head_start' -> column '<species>_head', for every species
+   column of the head-count table *)
+Theorem c13_head_key : forall c, In c species_head_columns -> head_column (head_const_key c) = Some c.
+Proof. exact head_key_species. Qed.
+Print Assumptions c13_head_key.
+
+(* the row the override is written to is the row create_animal_objects reads, for every country code of the
+   country table that is a row of the head-count table ... *)
+Theorem c13_head_reach_partial : forall code, In code iso3_codes -> In code head_table_rows ->
+  head_write_label code = head_read_label code.
+Proof. exact head_reach_rows. Qed.
+Print Assumptions c13_head_reach_partial.
+
+(* ... but NOT for every country code: while the override is applied before the country code is remapped, a
+   remapped code (SWT -> SWZ) loses it.  (Stated so that it still compiles once the order is repaired.) *)
+Theorem c13_head_reach_refuted : head_override_before_remap = true ->
+  exists code, In code iso3_codes /\ head_write_label code <> head_read_label code.
+Proof.
+  intro H. vm_compute in H. try discriminate H.
+  exists "SWT". split; [vm_compute; auto 200|vm_compute; discriminate].
+Qed.
+Print Assumptions c13_head_reach_refuted.
+
+(* ------------------------------------------------------------------ numeric overrides: frame (evaluated on the witness configurations) *)
+(* dispatch with the extra option differs from dispatch without it at most at the `allowed` constants; the time
+   constants and flags are identical; `expect` lists the values the named constants must have afterwards.
+   PARTIAL: a kernel evaluation of the model on the two witness configurations for the listed values, not a
+   statement for every dictionary (the general statement is covered by the differential and the audit only). *)
+Definition frame_ok (cfg : options * row) (extra : options) (allowed : list string) (expect : dict) : bool :=
+  match dispatch (fst cfg) (snd cfg), dispatch (fst cfg ++ extra)%list (snd cfg) with
+  | DOk s0, DOk s1 =>
+    forallb (fun k => str_mem k allowed ||
+                      match lookup k (consts s0), lookup k (consts s1) with
+                      | Some a, Some b => value_close 0 a b
+                      | None, None => true
+                      | _, _ => false
+                      end) (map fst (consts s0) ++ map fst (consts s1))%list &&
+    forallb (fun kv => match lookup (fst kv) (consts s1) with Some v => value_close 0 (snd kv) v | None => false end) expect &&
+    dict_close 0 (tconsts s0) (tconsts s1) && flags_same (flags s0) (flags s1)
+  | _, _ => false
+  end.
+
+Definition year_keys (p : string) : list string :=
+  map (fun i => p ++ i) ["1"; "2"; "3"; "4"; "5"; "6"; "7"; "8"; "9"; "10"; "11"].
+
+Definition frame_cases : list (options * list string * dict) :=
+  ([ ([("MINIMUM_PERCENT_FED_BEFORE_NONHUMAN_CONSUMPTION_ALLOWED", ONum 0)],
+     ["MINIMUM_PERCENT_FED_BEFORE_NONHUMAN_CONSUMPTION_ALLOWED"], [("MINIMUM_PERCENT_FED_BEFORE_NONHUMAN_CONSUMPTION_ALLOWED", VNum 0)]);
+    ([("MINIMUM_PERCENT_FED_BEFORE_NONHUMAN_CONSUMPTION_ALLOWED", ONum (75#2))],
+     ["MINIMUM_PERCENT_FED_BEFORE_NONHUMAN_CONSUMPTION_ALLOWED"], [("MINIMUM_PERCENT_FED_BEFORE_NONHUMAN_CONSUMPTION_ALLOWED", VNum (75#2))]);
+    ([("RATIO_STOCKS_UNTOUCHED", ONum (1#4))], ["RATIO_STOCKS_UNTOUCHED"], [("RATIO_STOCKS_UNTOUCHED", VNum (1#4))]);
+    ([("RATIO_STOCKS_UNTOUCHED", ONum 1)], ["RATIO_STOCKS_UNTOUCHED"], [("RATIO_STOCKS_UNTOUCHED", VNum 1)]);
+    ([("CROP_PRODUCTION_MULTIPLIER", ONum (3#2))], year_keys "RATIO_CROPS_YEAR", []);
+    ([("GRASSES_PRODUCTION_MULTIPLIER", ONum (1#2))], year_keys "RATIO_GRASSES_YEAR", []);
+    ([("kg_meat_per_large_animal", ONum (423#2))], ["kg_meat_per_large_animal"], [("kg_meat_per_large_animal", VNum (423#2))]) ]
+  ++ map (fun c => ([(c, ONum (24691#2))], [(c ++ "_start")%string], [((c ++ "_start")%string, VNum 12345)])) species_head_columns)%list.
+
+Theorem c13_overrides_frame_witness : forall cfg ex, In cfg witness_configs -> In ex frame_cases ->
+  frame_ok cfg (fst (fst ex)) (snd (fst ex)) (snd ex) = true.
+Proof.
+  assert (H : forallb (fun cfg => forallb (fun ex => frame_ok cfg (fst (fst ex)) (snd (fst ex)) (snd ex)) frame_cases)
+                      witness_configs = true) by (vm_compute; reflexivity).
+  intros cfg ex Hc He. rewrite forallb_forall in H. specialize (H cfg Hc). cbv beta in H.
+  rewrite forallb_forall in H. exact (H ex He).
+Qed.
+Print Assumptions c13_overrides_frame_witness.
